@@ -145,11 +145,6 @@ end
 def hdrMeta (h : Hdr) (m : Meta) : Meta :=
   { m with ct := h.sym.name, sfx := h.sfx, ann := h.anno.map (fun a => '[' :: a ++ [']']) }
 
-/-- `tree.Combine(l, r, op)`: new node, component type from the left (else right) operand -/
-def combineN (op : Str) (l r : PNode) : PNode :=
-  let ctl := l.meta.ct
-  .comb op [] [] { ct := if ctl ≠ [] then ctl else r.meta.ct } [] l r
-
 /-- insert `n` under field `f`, joining with `op` when the field is already populated -/
 def addField (op : Str) (f : Nat) (n : PNode) : PStmt → PStmt
   | [] => [(f, n)]
